@@ -9,6 +9,10 @@ from pyvc.core import Sym, Unsupported
 from pyvc.objects import NDArr, SObj
 
 
+def _is_sym(v):
+    return type(v) is Sym
+
+
 def is_real_kind(v):
     if type(v) is Sym:
         return v.ty is not bool and not (v.ty is int or v.ty is np.int64)
@@ -107,7 +111,14 @@ def _approx_eq(a, b, tol, F=None, ignore=(), path="", sets_as_sets=True, _depth=
     # an attribute that is absent on one side and None on the other is 'unset' on both
     def unset(k, v):
         # an absent value and an empty collection carry the same (no) content
-        return v is None or (isinstance(v, (list, set, frozenset, dict)) and len(v) == 0)
+        if v is None or (isinstance(v, (list, set, frozenset, dict)) and len(v) == 0):
+            return True
+        # a traffic-light cycle without elements carries no content: both readers return it for a light without a cycle
+        if (v.cls.__name__ if type(v) is SObj else type(v).__name__) == "TrafficLightCycle":
+            d = _attrs_of(v) or {}
+            off = d.get("_time_offset")
+            return not d.get("_cycle_elements") and (off is None or (not _is_sym(off) and off == 0))
+        return False
 
     ka = {k for k in da if k not in ig and not unset(k, da[k])}
     kb = {k for k in db if k not in ig and not unset(k, db[k])}
